@@ -417,17 +417,29 @@ fn formats<N: ArrayLength>() -> Result<CaseInfo, String> {
             ledger::check_exact(&[], 0).map_err(|e| format!("JSON list of {c} with a bad element at {k} (N = {n}): {e}"))?;
         }
     }
-    // truncated bincode input
-    if n > 0 {
-        let r: Result<GA<u32, N>, _> = bincode::deserialize(&b[..b.len() - 1]);
+    // bincode input truncated at every byte position: rejected, elements already read dropped once
+    for cut in 0..b.len() {
+        let r: Result<GA<u32, N>, _> = bincode::deserialize(&b[..cut]);
         if r.is_ok() {
-            return Err("truncated bincode input was accepted".into());
+            return Err(format!("bincode input truncated to {cut} of {} bytes was accepted", b.len()));
         }
         elems::reset_all();
-        let r: Result<GA<El, N>, _> = bincode::deserialize(&b[..b.len() - 1]);
+        let r: Result<GA<El, N>, _> = bincode::deserialize(&b[..cut]);
+        if r.is_ok() {
+            return Err(format!("bincode input (tracked elements) truncated to {cut} of {} bytes was accepted", b.len()));
+        }
         drop(r);
-        ledger::check_exact(&[], 0).map_err(|e| format!("truncated bincode input: {e}"))?;
+        ledger::check_exact(&[], 0).map_err(|e| format!("bincode input truncated to {cut} bytes: {e}"))?;
     }
+    // tracked elements through bincode and back
+    elems::reset_all();
+    let back_el: GA<El, N> = bincode::deserialize(&b).map_err(|e| format!("bincode round trip (tracked) failed: {e}"))?;
+    let reser = bincode::serialize(&back_el).map_err(|e| e.to_string())?;
+    if reser.len() != b.len() {
+        return Err("re-serialised tracked array has a different size".into());
+    }
+    drop(back_el);
+    ledger::check_exact(&[], 0).map_err(|e| format!("bincode round trip (tracked): {e}"))?;
     Ok(CaseInfo::new(n > 0, "formats"))
 }
 
